@@ -81,8 +81,57 @@ def run(pid, entries, verdict, ncrates=16):
     return obs, bad_m, bad_t, build_s
 
 
+def tlc_judge(pid, records):
+    """TraceSem: Eval(chain, input) = (observed value, observed calls) for every record.
+    Returns the set of indices TLC rejected, or None for records it could not reach (too many rejections)."""
+    import re
+    wd = C.workdir(pid, "tlc")
+    n = len(records)
+    size = 4000
+    chunks = [list(range(k, min(k + size, n))) for k in range(0, n, size)]
+    cfg = 'SPECIFICATION TSpec\nCONSTANTS Family = "none" Tier = "quick" MaxLen = 0\nPOSTCONDITION Accepted\nCHECK_DEADLOCK FALSE\n'
+
+    def go(ci):
+        idx = list(chunks[ci])
+        rej = []
+        for attempt in range(10):
+            if not idx:
+                break
+            path = os.path.join(wd, f"semobs_{ci}.ndjson")
+            with open(path, "w") as f:
+                for k in idx:
+                    f.write(json.dumps(records[k]) + "\n")
+            rc, text = C.tlc("TraceSem", cfg, wd, f"semobs_{ci}", workers=1, env={"TRACE": path},
+                             java_opts="-Xss1g -Dtlc2.tool.queue.IStateQueue=StateDeque", heap="3g", timeout=1800)
+            if C.tlc_ok(text):
+                return rej, []
+            m = re.search(r'<<"SEM_REJECTED", (\d+)>>', text)
+            if not m:
+                # an evaluation error inside Eval on an observed (ill-shaped) value counts as a rejection of that record
+                m2 = re.search(r"(\d+) states generated", text)
+                if not m2:
+                    raise C.ToolError(f"TraceSem failed without a verdict: {wd}/semobs_{ci}.out\n" + text[-1500:])
+                d = int(m2.group(1))
+            else:
+                d = int(m.group(1))
+            d = max(1, min(d, len(idx)))
+            rej.append(idx[d - 1])
+            idx = idx[:d - 1] + idx[d:]
+        else:
+            return rej, idx
+        return rej, []
+
+    rejected, unknown = set(), set()
+    with ThreadPoolExecutor(max_workers=8) as ex:
+        for rej, unk in ex.map(go, range(len(chunks))):
+            rejected.update(rej)
+            unknown.update(unk)
+    return rejected, unknown
+
+
 def judge(pid, entries, obs, bad_m, bad_t, verdict):
-    """three-way oracle: macro vs TLA+ expectation vs plain-Rust twin"""
+    """three-way oracle: macro vs TLA+ specification vs plain-Rust twin.  Whether the macro's observation equals the
+    specification is decided by TLC (TraceSem); the twin is compared with the expectation TLC emitted."""
     ok = 0
     spec_wrong = []
     byname = {n: (c, v) for n, c, v in entries}
@@ -101,6 +150,21 @@ def judge(pid, entries, obs, bad_m, bad_t, verdict):
             c, v = byname[n]
             spec_wrong.append(f"twin of {chain_text(c, v)} does not compile: {msg.splitlines()[0][:150]}")
     evals = 0
+    records, keys = [], []
+    for n, c, v in entries:
+        if n in bad_m or n in bad_t:
+            continue
+        cases = SG.sorted_cases(c)
+        for o in obs.get(n, []):
+            exp = cases[o["k"]]
+            if isinstance(o["mv"], dict) and o["mv"].get("t") == "panic":
+                continue
+            records.append({"chain": {"start": c["start"], "items": c["items"]}, "inp": exp["inp"], "v": o["mv"], "calls": o["mcalls"]})
+            keys.append((n, o["k"]))
+    rejected, unknown = tlc_judge(pid, records)
+    tlc_says = {}
+    for k, key in enumerate(keys):
+        tlc_says[key] = None if k in unknown else (k not in rejected)
     for n, c, v in entries:
         if n in bad_m or n in bad_t:
             continue
@@ -111,7 +175,10 @@ def judge(pid, entries, obs, bad_m, bad_t, verdict):
             e = (exp["v"], exp["calls"])
             m = (o["mv"], o["mcalls"])
             t = (o["tv"], o["tcalls"])
-            if m == e:
+            agree = tlc_says.get((n, o["k"]))
+            if agree is None:
+                agree = (m == e)      # beyond TLC's rejection budget for the chunk: equality with the expectation TLC emitted
+            if agree:
                 ok += 1
                 if t != e:
                     spec_wrong.append(f"twin differs from specification and macro on {chain_text(c, v)} input {exp['inp']}")
